@@ -332,7 +332,17 @@ def ob_batch(method, cmp=None, label=""):
                               "rules = [fl.Rule.create('if X is t%d then O is c%d' % (i, i), e) for i in range(2)]",
                               f"rb = fl.RuleBlock('rb', conjunction=fl.Minimum(), disjunction=fl.Maximum(), implication=fl.Minimum(), activation={ctor}, rules=rules)",
                               "try:", "    rb.activate(); raised = None", "except ValueError as ex:", "    raised = ex",
-                              f"verdict({'raised is not None' if method == 'General' else 'raised is None'}, '{method} on a batch of 2: raised=%r' % (raised,))"])
+                              f"if {'raised is not None' if method == 'General' else 'raised is None'}: verdict(True, '{method} on a batch of 2: raised=%r' % (raised,))",
+                              ("verdict(False, 'General accepts the batch')" if method == "General" else "pass"),
+                              PYREF,
+                              "for i, tm in enumerate(X.terms): tm.vals = D[i][0]",
+                              "X.value = 0.5; O.fuzzy.clear(); rb.activate()",
+                              f"con, trig, deg = oracle({method!r}, [D[0][0], D[1][0]], [True, True], [True, True], n={v['n']}, t={lit(v['t'])}, cmp={cmp!r})",
+                              "bad = [r.text for r in rb.rules] != [r.text for r in rules] and 'the rule list was reordered' or None",
+                              "for i in range(2):",
+                              "    acts = [a for a in O.fuzzy.terms if a.term.name == 'c%d' % i]",
+                              "    if len(acts) != (1 if con[i] else 0) or bool(rules[i].triggered) != trig[i] or not same(rules[i].activation_degree, deg[i], 1e-9): bad = bad or 'rule %d after the rejected batch: %d contributions, triggered=%r, degree=%r; definition %r %r %r' % (i, len(acts), bool(rules[i].triggered), rules[i].activation_degree, con[i], trig[i], deg[i])",
+                              f"verdict(bad is not None, '{method}: scalar activation after a rejected batch: %s' % (bad,))"])
 
         rp = replay_fn(PROPERTY, label, rbody, key=None)
 
@@ -343,8 +353,9 @@ def ob_batch(method, cmp=None, label=""):
                     self.i = i
 
                 def membership(self, x):
-                    return sym_array(D[self.i])
+                    return sym_array(D[self.i]) if mode["batch"] else D[self.i][0]
 
+            mode = {"batch": True}
             X = fl.InputVariable("X", minimum=0, maximum=1, terms=[Abs(f"t{i}", i) for i in range(N)])
             O = fl.OutputVariable("O", minimum=0, maximum=1, aggregation=fl.Maximum(), defuzzifier=fl.Centroid(),
                                   terms=[fl.Triangle(f"c{i}", 0, 0.5, 1) for i in range(N)])
@@ -352,7 +363,16 @@ def ob_batch(method, cmp=None, label=""):
             rules = [fl.Rule.create(f"if X is t{i} then O is c{i}", e) for i in range(N)]
             rb = fl.RuleBlock("rb", conjunction=fl.Minimum(), disjunction=fl.Maximum(), implication=fl.Minimum(),
                               activation=make_method(fl, method, nsym, t, cmp), rules=rules)
-            rb.activate()
+            try:
+                rb.activate()
+            except ValueError:
+                # a rejected batch leaves the block as it was: the same block then activates on scalar degrees (first column) as ever
+                if method == "General":
+                    raise
+                mode["batch"] = False
+                O.fuzzy.clear()
+                rb.activate()
+                return "after-rejection", [(r.triggered, r.activation_degree, [a.degree for a in O.fuzzy.terms if a.term is O.terms[i]]) for i, r in enumerate(rules)], [id(r) for r in rb.rules] == [id(r) for r in rules]
             return [(r.triggered, r.activation_degree) for r in rules], [a.degree for a in O.fuzzy.terms]
 
         seen = 0
@@ -370,7 +390,18 @@ def ob_batch(method, cmp=None, label=""):
                     claims += [ZB(core.tb(x)) == (y.v > 0) for x, y in zip(elements(rs[i][0]), D[i])]
                 ob.prove(pre, p, z3.And(*claims), f"{label}/batch-elementwise", ins, rp)
             else:
-                if isinstance(p.exc, ValueError):
+                if p.exc is None and isinstance(p.result, tuple) and p.result and p.result[0] == "after-rejection":
+                    ob.prove(pre, p, True, f"{label}/rejects", ins, rp)
+                    _, rs, same_order = p.result
+                    con, trig, deg = z_oracle(method, [D[i][0].v for i in range(N)], (True,) * N, (True,) * N, n=nsym.i, t=t.v, cmp=cmp)
+                    claims = [z3.BoolVal(bool(same_order))]
+                    for i in range(N):
+                        tr, ad, acts = rs[i]
+                        claims.append(ZB(core.tb(elements(tr)[0])) == trig[i])
+                        claims.append(z3.And(ZB(tf(ad).fin()), tf(ad).v == deg[i]))
+                        claims.append(con[i] == z3.BoolVal(len(acts) == 1))
+                    ob.prove(pre, p, z3.And(*claims), f"{label}/scalar-after-rejected-batch", ins, rp)
+                elif isinstance(p.exc, ValueError):
                     ob.prove(pre, p, True, f"{label}/rejects", ins, rp)
                 elif p.exc is not None:
                     ob.unexpected(pre, p, label, ins, rp)
